@@ -130,7 +130,7 @@ def replay_slice(module, cfg_template, consts, ezdrive, workers=None, nproc=None
     tlclog = os.path.join(work, "tlc.log")
     # bash pipeline: TLC | tee(non-edge lines -> log) | grep edges | split -> ezdrive replay
     pipe = ("set -o pipefail; timeout %d tlc -noGenerateSpecTE -workers %d -metadir %s -config %s %s 2>&1 "
-            "| tee >(grep -v '^\"{' > %s) | grep '^\"{' | tee >(awk 'NR==5 || NR%%%d==77' | head -4 > %s/samples.txt) "
+            "| tee >(grep -v '^\"{' > %s) | grep '^\"{' | tee >(awk '(NR==5 || NR%%%d==77) && c<4 {print; c++}' > %s/samples.txt) "
             "| split -n r/%d -u --filter='%s replay --dir %s > %s/out.$FILE' - x"
             % (timeout, workers, md, cfg, module, tlclog, sample_every, work, nproc, ezdrive, work, work))
     t0 = time.time()
